@@ -83,9 +83,25 @@ func MinDepositRef(k keeper.Keeper, ctx sdk.Context, price sdk.Int) sdk.Int {
 // multiple raised by governance) leaves available bindings below the new minimum until their next slash.
 var noMinAssumed bool
 
+// hugeMode: the scene models the SDK's 255-bit range checks (vf.CheckOverflow). What is in the state is then
+// bounded the way a real chain bounds it - no account, deposit or stored price beyond 2^127 (the total supply
+// is far below that) - while the amounts a message carries stay free up to the 255 bits an sdk.Int can hold.
+var hugeMode bool
+
+func two64() sdk.Int  { return sdk.NewIntFromUint64(1 << 63).MulRaw(2) }
+func two127() sdk.Int { return two64().Mul(sdk.NewIntFromUint64(1 << 63)) }
+
+// inState assumes the bound on an amount held in the state when the range checks are modelled
+func inState(x sdk.Int) sdk.Int {
+	if hugeMode {
+		vf.Assume(x.LT(two127()))
+	}
+	return x
+}
+
 func Binding(k keeper.Keeper, ctx sdk.Context, tag, svc string, provider, owner sdk.AccAddress, nT, nV int, allowZero bool) BindingSpec {
 	b := BindingSpec{Provider: provider, Owner: owner, Present: true}
-	b.Deposit = vf.Amount(tag + ".deposit")
+	b.Deposit = inState(vf.Amount(tag + ".deposit"))
 	if !allowZero {
 		vf.Assume(b.Deposit.IsPositive())
 	}
@@ -93,6 +109,12 @@ func Binding(k keeper.Keeper, ctx sdk.Context, tag, svc string, provider, owner 
 	p, err := k.ParsePricing(ctx, b.Text)
 	vf.Assume(err == nil)
 	vf.Assume(types.ValidatePricing(p) == nil)
+	for _, pr := range p.PromotionsByTime { // what is stored went through the protobuf codec: years 1..9999
+		vf.Assume(vf.And(!pr.StartTime.Before(time.Time{}), !pr.EndTime.Before(time.Time{})))
+	}
+	if hugeMode {
+		vf.Assume(p.Price.AmountOf(Denom).LT(two64()))
+	}
 	b.Pricing = p
 	b.QoS = vf.Uint64(tag + ".qos")
 	vf.Assume(vf.And(b.QoS >= 1, b.QoS <= uint64(k.MaxRequestTimeout(ctx))))
